@@ -34,6 +34,8 @@ def shapes_for(cfg):
     import os
     if os.environ.get("VERIF_SHAPES") is not None:          # triage only; ./check unsets it
         return tuple(x for x in os.environ["VERIF_SHAPES"].split(",") if x)
+    if cfg.get("ci"):
+        return ()               # KF-46b: conflict gadgets under variant-cased folder names (case-insensitive cases)
     bad = DROPPED.get((cfg["L"], cfg["R"]), ()) + DROPPED.get("*", ())
     return tuple(s for s in GADGET_SHAPES if s not in bad)
 
